@@ -84,11 +84,13 @@ var ctlOptions = []string{
 // variableNames returns every variable name the generated package knows.
 func variableNames() []string {
 	var out []string
-	for i := 0; i < 512; i++ {
+	seen := map[string]bool{}
+	for i := 0; i < 256; i++ {
 		n := variables.RuleVariable(i).Name()
-		if n == "INVALID_VARIABLE" {
+		if n == "INVALID_VARIABLE" || seen[n] {
 			continue
 		}
+		seen[n] = true
 		out = append(out, n)
 	}
 	return out
